@@ -77,6 +77,17 @@ def check(run):
                 sc.exp_writes = []
                 h = cc.History(S, {"rct": c["rct"]}); h.read_card()
                 scs.append(sc); meta.append(("connect-stall", h, len(pattern), 0))
+    # the WHOLE retry budget of every exchange of every operation: the peer closes at the start of exchange j and no terminal is
+    # reachable any more (19 further attempts, all refused) — the operation must return IncompleteData, not hang, not succeed
+    for h in hs_all:
+        for j, e in enumerate(h.exchanges):
+            sc = h.build((j, 0, "close"))
+            keep = sc.fault_conn + 1
+            sc.conns, sc.ends = sc.conns[:keep], sc.ends[:keep]
+            sc.ends[-1] = "C"
+            sc.exp_results = [None] * len(sc.ops)
+            sc.exp_writes = []
+            scs.append(sc); meta.append(("budget", h, j, e.op))
     # (2) every configuration value of read_card_timeout, with a terminal that never answers the command
     for t in (range(256) if th else list(range(0, 256, 5)) + [1, 2, 253, 254, 255]):
         h = cc.History(S, {"rct": t}); h.read_card()
@@ -171,6 +182,10 @@ def check(run):
                 ok = False
                 run.violation(kind="fault_sequence", case=c[:3000], expected="operation %d returns within %d ms (virtual)" % (k, bound),
                               observed="%s after %d ms" % (text, dt), how_found="oracle")
+        if kind == "budget" and len(res) > 1 + b and not res[1 + b][0].startswith("Err:"):
+            ok = False
+            run.violation(kind="fault_sequence", case=c[:3000], expected="operation %d fails once the retry budget of its exchange %d is spent (no terminal reachable)" % (b, a),
+                          observed=res[1 + b][0], how_found="oracle")
         if kind == "rct-budget":
             # exactly: 1 attempt timing out after (t+2) s on the good connection, then 19 refused attempts 2 s apart
             exp = (a + 2) * 1000 + (19 * 2000 if (a + 2) * 1000 <= 2000 else (a + 2) * 1000 - 0 + 0) if False else None
